@@ -423,6 +423,14 @@ def _inherent(head, last, plain, c):
             r = deref(a[0]); x = deref(a[1])
             return b_and(int_binop("Le", r.cells[0].v, x), int_binop("Lt", x, r.cells[1].v))
         return rc
+    if (head == "Range" or "ops::Range::" in plain) and last in ("is_empty", "len"):
+        def rie(I, a, fr, d):
+            r = deref(a[0])
+            lo, hi = r.cells[0].v, r.cells[1].v
+            if last == "is_empty": return b_not(int_binop("Lt", lo, hi))
+            if I.E.branch(int_binop("Lt", lo, hi), "range_len"): return int_binop("Sub", hi, lo)
+            return Int(lo.ty, 0)
+        return rie
     if plain in ("std::mem::take", "core::mem::take"):
         def take(I, a, fr, d):
             cell = a[0].cell
